@@ -5,7 +5,7 @@ from .. import app, docprops, engine
 from ..oracles.positions import _width
 from ..runner import Run, h64
 
-PLAN = {"B2/53": 825, "B3/89": 495, "B4/83": 385, "I4/97": 495, "N1/11": 825, "W1/2": 660, "S2": 660, "S3": 165, "U1/7": 220, "X2/3": 275, "H4/3": 220, "P2": 275, "R2/3": 300, "R3": 300, "K7/3": 150, "T4/3": 400, "Z1": 800}
+PLAN = {"B2/53": 825, "B3/89": 495, "B4/83": 385, "I4/97": 495, "N1/11": 825, "W1/2": 660, "S2": 660, "S3": 165, "U1/7": 220, "X2/3": 275, "H4/3": 220, "P2": 275, "R2/3": 300, "R3": 300, "K7/3": 150, "T4/3": 400, "Z1": 800, "Q2": 600, "P3": 700, "E1/211": 400, "M3/3": 400, "L6": 400, "G2": 400, "H6": 300, "U2": 400, "L7": 500}
 FIRST = {"B2/53": 60}
 EVALUATOR = "vp.props.c07:ev"
 RULE = (
